@@ -272,6 +272,15 @@ func NewEpochFromConfig(
 				if !lastRootCid.Equals(gotRootCid) {
 					return nil, fmt.Errorf("root CID mismatch in gsfa index: expected %s, got %s", lastRootCid, gotRootCid)
 				}
+
+				// the pubkey index inside the gsfa directory carries its own identity
+				offsetsMeta := gsfaIndex.OffsetsMeta()
+				if offsetsMeta.Epoch != ep.Epoch() {
+					return nil, fmt.Errorf("epoch mismatch in gsfa pubkey index: expected %d, got %d", ep.Epoch(), offsetsMeta.Epoch)
+				}
+				if !lastRootCid.Equals(offsetsMeta.RootCid) {
+					return nil, fmt.Errorf("root CID mismatch in gsfa pubkey index: expected %s, got %s", lastRootCid, offsetsMeta.RootCid)
+				}
 			}
 		}
 	}
